@@ -55,7 +55,7 @@ Section HC.
       unfold store32. rewrite Hst. cbn [bind].
       assert (Hlen4 : len (le_enc 4 h1) = 4) by (rewrite le_enc_len; reflexivity).
       destruct (IH m1 wr h1) as [m' [A [B [C [D [E F]]]]]].
-      + eapply store_bytes_ok; eauto. apply le_enc_bytes_ok.
+      + apply (store_bytes_ok m x (le_enc 4 h1) m1 Hbm (le_enc_bytes_ok 4 h1) Hst).
       + intros e He. apply Hs. right. exact He.
       + rewrite <- Hlen4 at 1. apply (load_store_same _ _ _ _ Hst). lia.
       + exact Hh1.
@@ -111,7 +111,7 @@ Section HC.
     rewrite (load_join m2 t size 4 _ _ Wf2 V2 Ht ltac:(lia) B Lr2). cbn [bind]. fold H.
     assert (HH : 0 <= H < W32).
     { apply hash_ext_range; [|exact C]. apply bytes_ok_app; [apply le_enc_bytes_ok|].
-      apply bytes_ok_skipn. eapply load_bytes_ok; eauto. }
+      apply bytes_ok_skipn. apply (load_bytes_ok m t size body Hbm Lb). }
     assert (Hi2 : inv m2 v).
     { destruct Hi1 as [_ [W [El [Su [Nb [Ro Cn]]]]]]. unfold inv. rewrite D. split; [exact E|]. split; [exact W|]. split; [exact El|].
       split; [exact Su|]. split; [exact Nb|]. split; [|exact Cn]. assert (len m2 = len m1) by (rewrite <- !len_lens, D; reflexivity). lia. }
